@@ -64,5 +64,9 @@ def run(ctx):
         if r["hung"]:
             ctx.inconclusive.append("frontend scenario hung: " + r["where"])
     ctx.coverage["frontend_requests"] = sum(1 for e in events if e["ev"] == "call")
+    # "inside the base directory" means the directory the agent serves NOW: after reloads that move the store to another
+    # directory, logins and writes must be answered from / land in the new one (Reload.tla: login and wrote events carry the base)
+    import reloadfam
+    reloadfam.run(ctx, prop="C03")
     ctx.coverage["rule"] = ("invalid-name classes x operations in a sandbox tree; directory cases with invalid-named files; strace'd "
                             "operations (and single faults on mkdir/open/rename) judged by OnlyOwnPaths; invalid names through all frontends")
